@@ -19,7 +19,8 @@ TRUSTED = [
 ]
 
 
-def engine_check(ctx, prop_file, families, what, relevant=None, stream_b=None, runner_name=None, extra_cov=None):
+def engine_check(ctx, prop_file, families, what, relevant=None, stream_b=None, runner_name=None, extra_cov=None,
+                 entry_predicates=False):
     """families: list of (family function name, n_quick, n_thorough)."""
     if ctx.replay:
         return replay_case(ctx, runner_name, what)
@@ -66,6 +67,12 @@ def engine_check(ctx, prop_file, families, what, relevant=None, stream_b=None, r
                    "distinct (flavour, base, schedule)")
     cov["streams"] = streams
     cov["samples"] = samples[:4]
+    if entry_predicates and g is not None:
+        # second tie for the decision predicates the engine's algorithm rests on (needs_sync, is_creation, hash_conflict,
+        # ...): regenerated from the current source, proved equal to the hand model, laws re-checked, truth table vs the
+        # real SideState / SyncEntry (harness/entrypred.py, PropEntryPred.v)
+        from .. import entrypred
+        entrypred.entrypred_gate(ctx)
     if extra_cov:
         cov.update(extra_cov)
     tb = list(TRUSTED) + ["axioms per theorem as printed by Print Assumptions: " +
